@@ -142,8 +142,18 @@ def local_closure(pid):
 
 
 def theorem_names(pid):
-    """Fully qualified names of every `theorem` in the property file (statements live there)."""
-    src = strip_comments((LEAN / "TwistedProps" / f"{pid}.lean").read_text())
+    """Fully qualified names of every `theorem` in the property file and in its lemma files
+    lean/TwistedProps/<pid>/*.lean (statements live in the former)."""
+    files = [LEAN / "TwistedProps" / f"{pid}.lean"]
+    files += [f for f in local_closure(pid) if f.parent == LEAN / "TwistedProps" / pid]
+    names = []
+    for f in files:
+        names += _theorem_names_in(f)
+    return names
+
+
+def _theorem_names_in(path):
+    src = strip_comments(path.read_text())
     names, ns = [], []
     for line in src.splitlines():
         m = re.match(r"\s*namespace\s+(\S+)", line)
@@ -154,9 +164,9 @@ def theorem_names(pid):
         if m and ns and ns[-1] == m.group(1):
             ns.pop()
             continue
-        m = re.match(r"\s*(?:@\[[^\]]*\]\s*)*(?:private\s+|protected\s+)?theorem\s+([^\s:({\[]+)", line)
-        if m:
-            names.append(".".join(ns + [m.group(1)]))
+        m = re.match(r"\s*(?:@\[[^\]]*\]\s*)*(private\s+|protected\s+)?theorem\s+([^\s:({\[]+)", line)
+        if m and not (m.group(1) or "").startswith("private"):   # private lemmas are audited through their users
+            names.append(".".join(ns + [m.group(2)]))
     return names
 
 
@@ -288,6 +298,10 @@ class Check:
                 orc = mod.oracle(c, io) if hasattr(mod, "oracle") else None
             except Timeout:
                 raise
+            except Exception as e:     # the oracle runs real code too: an escaping exception is a failure to explain
+                orc = {"key": "oracle-raised", "detail": f"{type(e).__name__}: {e}"[:300]}
+                if os.environ.get("VERIF_DEBUG"):
+                    traceback.print_exc()
             res.append((c, io, mo, orc))
         return res
 
@@ -361,6 +375,9 @@ class Check:
         results = self.run_cases(cases)
 
         disagreements = [(c, io, mo) for (c, io, mo, orc) in results if not self.agree(c, io, mo)]
+        if os.environ.get("VERIF_DEBUG"):
+            for c, io, mo in disagreements[:10]:
+                print(f"# DISAGREE case={jdump(c)[:300]}\n#   impl ={str(io)[:300]}\n#   model={str(mo)[:300]}")
         oracle_fail = [(c, io, orc) for (c, io, mo, orc) in results if orc]
 
         # 3. if the tie or a proof is broken: property-directed search on the real code
